@@ -14,7 +14,8 @@ fi
 W=/tmp/seedeval-$P-$I-$$
 export GOFLAGS=-mod=mod GOPROXY=off GOSUMDB=off GOTOOLCHAIN=local
 git -C /repo worktree add -q --detach $W HEAD || exit 2
-trap 'git -C /repo worktree remove --force $W >/dev/null 2>&1; rm -rf $W' EXIT
+TAG=$(python3 -c "import hashlib,sys;print(hashlib.sha1(sys.argv[1].encode()).hexdigest()[:8])" $W)
+trap 'git -C /repo worktree remove --force $W >/dev/null 2>&1; rm -rf $W /verif/build/bin/impl-$TAG /verif/build/bin/impl-race-$TAG /verif/build/harness-$TAG' EXIT
 DEMOS=$(ls $SRC/*_test.go 2>/dev/null)
 PKG=$(grep -l . $SRC/notes.md >/dev/null 2>&1; grep -ho "\(utils\|decoders/[a-z]*\|producer/proto\|transport/file\|transport/kafka\|utils/[a-z]*\)/\?" $SRC/notes.md | head -1)
 # destination package of the demo: first line `package X` + notes; try the candidates until it compiles
